@@ -110,13 +110,15 @@ func VerifH_C11_retry() {
 	vCover("C11.retry.done", done)
 }
 
-// A request is handed to the connection at the same moment the server's
-// GOAWAY arrives, in every order in which the write loop and the read loop can
-// take their turns: no HEADERS frame for a new stream is written once the
-// client has received the GOAWAY, and the request ends (written before the
-// GOAWAY and then failed or answered, or turned away unwritten).
+// A request is queued while the write loop is busy (inside a socket write that
+// the server is slow to take, answering a PING), the server's GOAWAY(last=1) is
+// read meanwhile, and then the write loop gets to the request: no HEADERS frame
+// for a new stream is written once the client has received the GOAWAY, the
+// request that was turned away ends, and the one the server kept completes.
+// The order is forced by the socket, so it is the same under the executor and
+// in the native replay.
 //
-//verif:harness prop=C11 unwind=200 timeout=600 sched=fork
+//verif:harness prop=C11 unwind=200 timeout=600
 func VerifH_C11_race() {
 	cl := vStartClient()
 	first := cl.request("GET", "/1", nil)
@@ -129,14 +131,19 @@ func VerifH_C11_race() {
 			lateHeaders = true
 		}
 	}
+	// the write loop goes into a socket write and stays there
+	cl.conn.wedged = make(chan struct{})
+	cl.feed(vFrame(0x6, 0x0, 0, []byte{1, 2, 3, 4, 5, 6, 7, 8}))
 	req, res := &fasthttp.Request{}, &fasthttp.Response{}
 	req.Header.SetMethod("GET")
 	req.URI().SetHost("h")
 	req.URI().SetPath("/3")
 	req.URI().SetScheme("https")
 	second := &Ctx{Request: req, Response: res, Err: make(chan error, 1)}
-	cl.c.Write(second)                                                // queued, not yet taken by the write loop
-	cl.conn.in <- vFrame(0x7, 0x0, 0, []byte{0, 0, 0, 1, 0, 0, 0, 0}) // GOAWAY(last=1)
+	cl.c.Write(second) // queued: the write loop is not there to take it
+	cl.feed(vFrame(0x7, 0x0, 0, []byte{0, 0, 0, 1, 0, 0, 0, 0})) // GOAWAY(last=1) is read
+	vAssert(cl.c.goAway != 0, "C11.race.goaway-received-first")
+	close(cl.conn.wedged) // the socket write returns, the write loop goes on
 	vSettle()
 	vAssert(!lateHeaders, "C11.race.no-stream-opened-after-goaway")
 	cl.feed(vFrame(0x1, 0x5, 1, vRespBlock(false, '1')))
